@@ -472,7 +472,9 @@ fn e2_pass(which: Which, rep: &mut Report, n: u64) {
             let prog = make_program(which, seed ^ 0xe2, i);
             let mut polled = Vec::new();
             let pollers = if which == Which::C12 { 2 } else { 0 };
+            conc::E2_WANT_EVENTS.with(|c| c.set(which == Which::C13));
             let ex = conc::run_e2(&prog, seed ^ i, 96, pollers, &mut polled);
+            conc::E2_WANT_EVENTS.with(|c| c.set(false));
             part.add("e2_executions", 1);
             let mut findings: Vec<String> = Vec::new();
             match which {
@@ -538,6 +540,9 @@ fn e2_pass(which: Which, rep: &mut Report, n: u64) {
             let (inc, findings): (Vec<String>, Vec<String>) = findings.into_iter().partition(|f| f.starts_with(lin::INCONCLUSIVE));
             for f in inc {
                 part.inconclusive(format!("[E2 program {}] {}", i, &f[lin::INCONCLUSIVE.len()..]));
+            }
+            if !findings.is_empty() {
+                part.add("e2_executions_with_a_violation", 1);
             }
             for f in findings.iter().take(2) {
                 part.violation(
@@ -1569,6 +1574,7 @@ pub fn exchange(rep: &mut Report, which: Which, ops_per_thread: u64) {
         exec: None,
         bounds,
         incomplete: false,
+        e2_events: Vec::new(),
     };
     rep.add("exchange_operations", n_ops);
     if ex.log.iter().any(|r| matches!(r.res, CRes::Open)) {
